@@ -149,7 +149,7 @@ class Core:
                 lines += ['else:'] + [ind + l for l in self.block(cp(env), genv, depth + 1, in_func, in_loop, 1)]
             return lines
         if c < 0.79 and depth < 2:
-            caught = ['ZeroDivisionError', 'ValueError', 'KeyError', 'AssertionError', 'RuntimeError', 'Exception', 'IndexError']
+            caught = ['ZeroDivisionError', 'ValueError', 'KeyError', 'AssertionError', 'RuntimeError', 'Exception', 'IndexError', 'ArithmeticError', 'LookupError', 'NameError']
             body = self.block(cp(env), genv, depth + 1, in_func, in_loop, r.randint(1, 2))
             if r.random() < 0.6:
                 body.append(r.choice(['raise %s' % r.choice(caught[:5] + ['OSError', 'StopIteration']), 'print(1 // 0)', 'assert 1 == 2', 'raise %s()' % r.choice(caught[:5])]))
@@ -235,6 +235,19 @@ class Core:
         for g, t in genv.items():           # read-only view of the other globals that exist before any call
             env.setdefault(g, t)
         assignable = cp(env)
+        shadow = None
+        if r.random() < 0.25:
+            # a name that is local because it is assigned further down: reading it first raises UnboundLocalError,
+            # whether or not a global of that name exists (the compiler decides statically)
+            cands = [g for g, t in genv.items() if t == 'int' and g not in gl]
+            shadow = r.choice(cands) if cands and r.random() < 0.6 else self.fresh('l')
+            handler = r.choice(['NameError', 'UnboundLocalError', 'Exception', 'NameError', ''])
+            if r.random() < 0.8:
+                body += ['try:', '    print(%s)' % shadow, ('except %s:' % handler) if handler else 'except:', "    print('unbound')"]
+            else:
+                body += ['print(%s)' % shadow]
+            body += ['%s = %d' % (shadow, r.randint(0, 9))]
+            assignable[shadow] = 'int'
         body += self.block(assignable, genv, 1, True, False, r.randint(1, 5))
         # never assign a global that was not declared: rename such targets away is complicated; regenerate instead
         end = r.random()
@@ -246,7 +259,7 @@ class Core:
             body.append('return')
         lines += ['    ' + l for l in body]
         self.funcs.append((name, n))
-        return lines, set(gl)
+        return lines, set(gl) | ({shadow} if shadow else set())
 
 
 def _assigns_undeclared_global(lines, genv, declared):
